@@ -936,6 +936,102 @@ fn long_recipes(thorough: bool, ctx: &mut Ctx) {
     }
 }
 
+// ---- whatever the library *declares* trusted-length must be exact (std adaptor chains over sources of unknown length) ----
+/// `Probe(it).announced()` is `Some(TrustedLen::len(&it))` if the library implements `TrustedLen` for the type of
+/// `it` (the inherent method is only a candidate when its bound holds), `None` otherwise (trait method as fallback).
+struct Probe<I>(I);
+trait NotDeclared {
+    fn announced(&self) -> Option<usize> {
+        None
+    }
+}
+impl<I> NotDeclared for Probe<I> {}
+impl<I: TrustedLen> Probe<I> {
+    fn announced(&self) -> Option<usize> {
+        Some(TrustedLen::len(&self.0))
+    }
+}
+
+fn check_declared(word: &[u8], alpha: &[X], ctx: &mut Ctx) {
+    let fam = "declared-trusted";
+    let x = decode(word, alpha);
+    let v: Vec<f64> = enc_vec(&x);
+    let len = v.len();
+    ctx.fam(fam).states += 1;
+    ctx.nontrivial(fam, hash_bytes(word));
+    let valid = |a: &f64| !a.is_nan();
+    // hold the announced length of `$make` (if the type is declared trusted) against its real length, before
+    // consumption and after every partial consumption from the front
+    macro_rules! chain {
+        ($name:expr, $make:expr) => {{
+            let total = Iterator::count($make);
+            let mut declared = false;
+            for consumed in 0..=total + 1 {
+                let mut it = $make;
+                for _ in 0..consumed {
+                    it.next();
+                }
+                let p = Probe(it);
+                ctx.transitions += 1;
+                if let Some(announced) = p.announced() {
+                    declared = true;
+                    let rest = Iterator::count(p.0);
+                    if announced != rest {
+                        ctx.violation(Violation {
+                            entry: format!("declared TrustedLen: {}", $name),
+                            finding: None,
+                            size: len * 100 + consumed,
+                            case: json!({"family": fam, "series": json_word(&x), "chain": $name, "consumed": consumed}),
+                            expected: format!("announced length == items still to come = {rest}"),
+                            got: format!("announces {announced}"),
+                        });
+                        break;
+                    }
+                }
+            }
+            ctx.eval(fam, mix(hash_bytes($name.as_bytes()), declared as u64));
+            if declared {
+                ctx.traces += 1;
+            }
+        }};
+    }
+    for k in 0..=len + 1 {
+        chain!(format!("titer().take({k})"), v.titer().take(k));
+        chain!(format!("titer().filter(valid).take({k})"), v.titer().filter(valid).take(k));
+        chain!(format!("titer().skip_while(!valid).take({k})"), v.titer().skip_while(|a| !valid(a)).take(k));
+        chain!(format!("titer().take_while(valid).take({k})"), v.titer().take_while(valid).take(k));
+        chain!(format!("titer().drop_none().take({k})"), v.titer().drop_none().take(k));
+        chain!(format!("titer().vsorted_unique().take({k})"), v.titer().vsorted_unique().take(k));
+        chain!(format!("titer().flat_map(once).take({k})"), v.titer().flat_map(std::iter::once).take(k));
+        chain!(format!("titer().chain(repeat).take({k})"), v.titer().chain(std::iter::repeat(7.0)).take(k));
+        chain!(format!("iter().cloned().cycle().take({k})"), v.iter().cloned().cycle().take(k));
+        chain!(format!("titer().skip({k})"), v.titer().skip(k));
+        chain!(format!("titer().step_by({})", k + 1), v.titer().step_by(k + 1));
+        chain!(format!("titer().filter(valid).step_by({})", k + 1), v.titer().filter(valid).step_by(k + 1));
+    }
+    chain!("titer().filter(valid)", v.titer().filter(valid));
+    chain!("titer().filter(valid).map", v.titer().filter(valid).map(|a| a + 1.0));
+    chain!("titer().filter(valid).enumerate", v.titer().filter(valid).enumerate());
+    chain!("titer().filter(valid).zip(titer())", v.titer().filter(valid).zip(v.titer()));
+    chain!("titer().zip(titer().filter(valid))", v.titer().zip(v.titer().filter(valid)));
+    chain!("titer().filter(valid).chain(titer())", v.titer().filter(valid).chain(v.titer()));
+    chain!("titer().chain(titer().filter(valid))", v.titer().chain(v.titer().filter(valid)));
+    chain!("titer().filter(valid).rev()", v.titer().filter(valid).rev());
+    chain!("titer().filter(valid).scan", v.titer().filter(valid).scan(0.0f64, |s, a| {
+        *s += 1.0;
+        Some(a)
+    }));
+    chain!("titer().take_while(valid)", v.titer().take_while(valid));
+    chain!("titer().skip_while(valid)", v.titer().skip_while(valid));
+    chain!("titer().flat_map(once)", v.titer().flat_map(std::iter::once));
+    chain!("titer().drop_none()", v.titer().drop_none());
+    chain!("titer().vsorted_unique()", v.titer().vsorted_unique());
+    chain!("titer().peekable()", v.titer().peekable());
+    chain!("titer().fuse()", v.titer().fuse());
+    chain!("titer().inspect()", v.titer().inspect(|_| {}));
+    chain!("titer().rev().filter(valid).rev()", v.titer().rev().filter(valid).rev());
+}
+
 fn main() {
     let run = Run::from_args("C09");
     let alpha: Vec<X> = vec![None, Some(-1.0), Some(0.0), Some(2.0)];
@@ -949,7 +1045,9 @@ fn main() {
         let mut ctx = Ctx::new();
         let x = word_from_json(&stored["case"]["series"]);
         let word: Vec<u8> = x.iter().map(|v| alpha.iter().position(|a| a == v).unwrap_or(0) as u8).collect();
-        if stored["case"]["family"] == "generators" {
+        if stored["case"]["family"] == "declared-trusted" {
+            check_declared(&word, &alpha, &mut ctx);
+        } else if stored["case"]["family"] == "generators" {
             for g in generators() {
                 check_generator(&g, &mut ctx);
             }
@@ -967,6 +1065,10 @@ fn main() {
         let deep = w.len() >= 2 && w.contains(&0) && w.contains(&2);
         check_word(w, &alpha, if deep { max_depth } else { 2 }, ctx);
     });
+    total.merge(par_items(&words, run.threads, |w, ctx| {
+        ctx.states += 1;
+        check_declared(w, &alpha, ctx)
+    }));
     let mut g = Ctx::new();
     for src in generators() {
         check_generator(&src, &mut g);
@@ -986,7 +1088,7 @@ fn main() {
     }
     total.states += sr_states as u64;
     let meta = Meta {
-        rule: "operation-sequence machine over iterators. A recipe = source (container titer on every back end / ring offset / stride / chunking, vdiff, vpct_change, vpartition, varg_partition, rolling_custom_iter, winsorize, range, linspace with full parameter bands) followed by 0..d adaptors (shift, vshift, ffill, bfill, fill, ffill_mask, fill_mask, vclip, abs, vabs; full bands at depth 1 and for the outer adaptor at depth 2, all 8^d pipelines of a reduced alphabet at depth 3..d). In every state (after k next(), and for double-ended sources after every next/next_back sequence up to len+2) size_hint().1 must equal the number of items still to come and the lower bound must not exceed it; adaptors preserve the input length; only then the raw trusted collectors are run and must return exactly the safely iterated list. Non-trivial = distinct input words. Also vcut as a source (6 bin configurations; an error item counts as an item), the std scan adaptor, and TrustedLen::len() == items still to come in every state (DESIGN 5.15).".into(),
+        rule: "operation-sequence machine over iterators. A recipe = source (container titer on every back end / ring offset / stride / chunking, vdiff, vpct_change, vpartition, varg_partition, rolling_custom_iter, winsorize, range, linspace with full parameter bands) followed by 0..d adaptors (shift, vshift, ffill, bfill, fill, ffill_mask, fill_mask, vclip, abs, vabs; full bands at depth 1 and for the outer adaptor at depth 2, all 8^d pipelines of a reduced alphabet at depth 3..d). In every state (after k next(), and for double-ended sources after every next/next_back sequence up to len+2) size_hint().1 must equal the number of items still to come and the lower bound must not exceed it; adaptors preserve the input length; only then the raw trusted collectors are run and must return exactly the safely iterated list. Non-trivial = distinct input words. Also vcut as a source (6 bin configurations; an error item counts as an item), the std scan adaptor, and TrustedLen::len() == items still to come in every state (DESIGN 5.15). Round 8 (DESIGN 5.17): declared-trusted - about 40 std adaptor chains over sources of unknown length; a compile-time probe tells whether the library declares the chain's type trusted-length, and whatever it declares must announce exactly the items still to come in every state.".into(),
         bounds: json!({"alphabet": json_word(&alpha), "L": max_len, "max_depth": max_depth, "lags": "-len-3..=len+3, i32::MIN, i32::MAX", "kth": "0..=len+2", "window": "1..=len+2",
                        "deep_pipelines_on": "words of length >= 2 containing a null and a zero"}),
         assumptions: vec![
